@@ -65,8 +65,10 @@ func NewItem(prodIdx int, prod *ast.SyntaxProd, pos int, followingSymbol string)
 		item.ExpectedSymbol = ""
 	}
 	item.str = item.getString()
-	// Two alternatives with the same head and body render alike but are different items.
-	item.key = fmt.Sprintf("%d|%s", prodIdx, item.str)
+	// An item is its production, dot position and look-ahead. The rendered text cannot serve:
+	// two alternatives with the same head and body render alike, and so do the items before
+	// and after a last symbol that is spelled like the dot ("•").
+	item.key = fmt.Sprintf("%d|%d|%s", prodIdx, pos, followingSymbol)
 	return item
 }
 
